@@ -1,5 +1,6 @@
 import H2V.Lemmas.ConnResetPPeer
 import H2V.Lemmas.ConnResetPDrop
+import H2V.Lemmas.ConnResetPPeerReset
 /-
   C17 — Resets: exactly one RST_STREAM with the right code; peer errors surface intact.
   PROPERTY THEOREMS ONLY (proofs: H2V/Lemmas/ConnResetP*.lean; what is partial and why:
@@ -180,6 +181,32 @@ theorem peer_reset_recorded (x : State) (sid : Nat) (code : Reason) (queued : Bo
       .closed (if x.isRecvEndStream then .errorAfterEndStream (.reset sid code .remote) else .error (.reset sid code .remote)) :=
   recvReset_state_open x sid code queued h
 
+/-- **RST_STREAM(id, code) from the peer on a live stream** (`Inner::recv_reset`, the whole path:
+    `Recv::recv_reset`, `Send::handle_error`, `transition_after`): the frame is accepted; the stream — if
+    it is still in the slab, i.e. a handle is alive — is closed with exactly `Reset(id, code, Remote)`
+    (`ErrorAfterEndStream(…)` when the peer had already ended its side), for every 32-bit `code`; and its
+    `pending_send` is empty: every unsent frame of that stream is discarded.  (What the handles then
+    answer: `recv_handles_report_error`, `poll_reset_reports_code`; that it stays so: `error_cause_is_kept`.) -/
+theorem peer_reset_on_live_stream (s : Streams) (id : Nat) (code : Reason) (k : Nat) (st : Stream) (hkb : KeysBelow s.store)
+    (hid : id ≠ 0) (hmax : ¬ id > s.recv.maxStreamId) (hf : s.store.findKey? id = some k)
+    (hg : s.store.get? k = some st) (hpo : st.isPendingOpen = false) (hpa : st.isPendingAccept = false)
+    (hn : st.state.isClosed = false) :
+    (s.recvReset id code).2 = .ok () ∧
+    ∀ st', (s.recvReset id code).1.store.get? k = some st' →
+      st'.id = st.id ∧
+      st'.state = ⟨.closed (if st.state.isRecvEndStream then .errorAfterEndStream (.reset st.id code .remote)
+                            else .error (.reset st.id code .remote))⟩ ∧
+      st'.pendingSend = [] :=
+  recvReset_records s id code k st hkb hid hmax hf hg hpo hpa hn
+
+/-- non-vacuity: request written, a body chunk queued; the peer resets with a code outside the registry -/
+example : let s := run {} [.sendRequest false [] false none, .cloneStreamRef 0, .pollComplete 10 {} {} "c",
+                           .refSendData 0 10 false]
+    s.store.findKey? 1 = some 0 ∧ ((s.store.get? 0).map fun st => (st.isPendingOpen, st.isPendingAccept, st.state.isClosed,
+      st.pendingSend.length)) = some (false, false, false, 1) ∧
+    (((s.recvReset 1 0xfffffffe).1.store.get? 0).map fun st => (st.state.inner, st.pendingSend)) =
+      some (.closed (.error (.reset 1 0xfffffffe .remote)), []) := by decide
+
 /-- **GOAWAY / I/O error / connection error: recorded as it is** (`State::handle_error`): code,
     initiator and debug data of a GOAWAY, kind of an I/O error. -/
 theorem peer_error_recorded (x : State) (e : PErr) (h : x.isClosed = false) :
@@ -240,6 +267,7 @@ end H2V.Props.C17
 #print axioms H2V.Props.C17.rst_frames_come_from_owing_streams
 #print axioms H2V.Props.C17.q1_two_rst_for_one_stream_id_counterexample
 #print axioms H2V.Props.C17.peer_reset_recorded
+#print axioms H2V.Props.C17.peer_reset_on_live_stream
 #print axioms H2V.Props.C17.peer_error_recorded
 #print axioms H2V.Props.C17.recv_handles_report_error
 #print axioms H2V.Props.C17.poll_reset_reports_code
